@@ -6,12 +6,18 @@ PROP_FILE = 'C03'
 
 
 def mons():
-    return [M.m_terminates, M.m_success_means_all_ok, lambda r: M.m_attempt_bound(r, 5)]
+    return [M.m_terminates, M.m_success_means_all_ok, lambda r: M.m_attempt_bound(r, 5), M.m_cancel, M.m_stream_order]
 
 
 def specs(ctx):
     seeds = 3 if ctx.thorough() else 1
     s = sysrun.specs_faults(ctx, sysrun.KINDS, seeds=seeds)
+    # 'or the cancellation error if the transfer was cancelled first': a cancel followed by a fault
+    pts = list(range(2, 110, 9 if not ctx.thorough() else 4))
+    for sp in sysrun.specs_cancel(ctx, sysrun.KINDS[::2], ['future'], pts):
+        s.append(sp)
+        s.append(dict(sp, s3_fault=dict(idx=2, when='before')))
+    s += sysrun.specs_nonthreaded_interrupt(ctx, sysrun.KINDS[:8])
     if ctx.thorough():
         # pairs of faults in the small scenarios
         for ts in sysrun.KINDS[:8]:
